@@ -51,9 +51,12 @@ class GrpcServer:
 
                 def handler(req_iter, ctx):
                     reqs = [bytes(r) for r in req_iter]
+                    tr = ctx.time_remaining()
+                    if tr is not None and tr > 1e9:      # grpc reports "no deadline" as ~2**63 ns
+                        tr = None
                     with _LOCK:
                         ev = {"seq": len(outer.events), "method": method, "requests": [b64(r) for r in reqs],
-                              "metadata": md, "time_remaining": ctx.time_remaining()}
+                              "metadata": md, "time_remaining": tr}
                         outer.events.append(ev)
                         q = outer.scripts.get(method)
                         if q:
